@@ -21,7 +21,6 @@ from pdfminer.pdffont import PDFFont
 from pdfminer.pdfinterp import Color, PDFGraphicState
 from pdfminer.pdftypes import PDFStream, resolve1
 from pdfminer.utils import (
-    INF,
     LTComponentT,
     Matrix,
     PathSegment,
@@ -37,6 +36,12 @@ from pdfminer.utils import (
 )
 
 logger = logging.getLogger(__name__)
+
+# Bounds of the empty bounding box of an expandable container. They have to
+# compare beyond every coordinate: the integer utils.INF (2**31 - 1) does not
+# for objects placed further out, which then get a wrong box and a spurious
+# leading space.
+INF = float("inf")
 
 
 class IndexAssigner:
